@@ -411,6 +411,44 @@ def r19_9(ctx):
     ctx.check(not raw, "no-serialize-bytes", raw[0][0] if raw else "src/output.rs", "no Serialize impl of the crate emits raw bytes (output is serialised as lossy text)",
               "%s serialises through serialize_bytes: the yaml renderer fails on every outcome list that contains such a value (output that is not valid UTF-8) - no "
               "rendering, exit 1 instead of 50" % sorted({n_ for _, n_ in raw}))
+    # (c) the loops over the diff records are left by exhaustion only (or by an error return): a `break` behind some record hides every later one
+    for fn_ in (prog.impl_fn("PrettyColorRenderer", "ErrorRenderer", "render_malformed_output"), prog.fn("UnifiedDiff::render")):
+        of = Origins(fn_)
+        nexts = [(bb, t) for bb, t in fn_.calls() if mname(t) == "Iterator::next" and "DiffLine" in ((t.get("self_ty") or "") + (t.get("callee_args") or ""))]
+        for nb, nt in nexts:
+            ve, rvv = variant_edges(fn_, nt["target"])
+            if ve is None or set(ve) != {"Some", "None"}:
+                continue
+            # natural loop of the back edges into the block that calls next()
+            body_ = {nb}
+            for b_, h_ in fn_.back_edges():
+                if h_ == nb or fn_.dominates(nb, b_) and nb in fn_.reachable(b_):
+                    stack_ = [b_]
+                    body_.add(b_)
+                    while stack_:
+                        x_ = stack_.pop()
+                        for p_ in fn_.preds[x_]:
+                            if p_ not in body_ and fn_.dominates(nb, p_):
+                                body_.add(p_)
+                                stack_.append(p_)
+            exits = {(b, s2) for b in body_ for s2 in fn_.succ(b) if s2 not in body_ and not fn_.blocks[s2]["cleanup"]}
+            early = []
+            for b, s2 in exits:
+                if b == nt["target"] and s2 == ve["None"]:
+                    continue
+                # error propagation (`?`) leaves through a from_residual / Err return: allowed
+                reach = set(fn_.reachable(s2, removed_edges=fn_.back_edges()))
+                errs = {bb2 for bb2, _si, _rv in aggregates(fn_, "Result", "Err")} | {bb2 for bb2, t2 in fn_.calls() if mname(t2) == "FromResidual::from_residual"}
+                if s2 in errs or (reach & errs and not any(fn_.blocks[x]["term"]["k"] == "call" and mname(fn_.blocks[x]["term"]) == "String::push_str" for x in reach)):
+                    continue
+                if fn_.blocks[s2]["term"]["k"] in ("unreachable", "resume"):
+                    continue
+                early.append(fn_.loc(b))
+            n_sites += 1
+            ctx.check(not early, "records-loop-complete:" + fn_.npath.split("::")[-1], early[0] if early else fn_.loc(nb),
+                      "the loop over the diff records of %s is left by exhaustion only" % fn_.npath.split("::")[-1],
+                      "the loop over the diff records can be left early (%s): the records behind that point - e.g. unexpected output lines after a long run of matching "
+                      "lines - are not rendered" % early[:2])
     # (b) stores of the diff renderer
     r = prog.fn("UnifiedDiff::render")
     o = Origins(r)
